@@ -926,7 +926,8 @@ class Unit:
         self.hdr = CHeader(self.files[self.hname])
         self.src = CSource(self.files[self.cname])
         self.gen = Gen(self.hdr, self.utf16)
-        self.exported_ifaces = {it["iface"] for it in self.desc["items"] if it["dir"] == "export" and it["iface"]}
+        # (keyed like the `owner` member of handle types: the interface id string, or #iface<n> for inline interfaces)
+        self.exported_ifaces = {it.get("owner_key", it["iface"]) for it in self.desc["items"] if it["dir"] == "export" and it["iface"]}
         if any(f.get("async") for it in self.desc["items"] for f in it["funcs"]):
             self.status, self.detail = "unsupported", "world has async functions (no native async host)"
             return
@@ -1259,7 +1260,11 @@ def emit_unit(u):
         w("extern %s(%s);" % (cdecl(d["ret"], d["symbol"]), ps))
     # ---- main
     w("int main(void) {")
+    w("#ifdef GR_LINEBUF")
+    w("  setvbuf(stdout, NULL, _IOLBF, 0);")
+    w("#else")
     w("  static char buf[1 << 20]; setvbuf(stdout, buf, _IOFBF, sizeof buf);")
+    w("#endif")
     w("  gr_init();")
     emit_layout_probes(u, o)
     for c in u.calls:
@@ -1552,7 +1557,11 @@ def build_and_run(u, rundir, rt_obj, asan):
         open(os.path.join(d, n), "w").write(c)
     open(os.path.join(d, "gr_main.c"), "w").write(u.test_c)
     open(os.path.join(d, "world.wit"), "w").write(u.wit)
-    san = ["-fsanitize=address,undefined", "-fno-sanitize-recover=undefined", "-g"] if asan else []
+    # thorough tier: ASan + UBSan (recovering, so every call is still judged; reports are merged into the transcript, which
+    # is line-buffered in this mode).  The bool/enum load checks are off: the generated option/result flattening copies the
+    # payload slot unconditionally (`*ret = option.val` also when is_some is false), i.e. it reads an uninitialised local;
+    # that is reported as an observation, it cannot change a transported value.
+    san = ["-fsanitize=address,undefined", "-fno-sanitize=bool,enum", "-fsanitize-recover=undefined", "-g", "-DGR_LINEBUF"] if asan else []
     exe = os.path.join(d, "t")
     # one clang invocation: the generated file (unmodified) + the emitted test program; gr_prelude.h only renames the
     # allocator entry points (the emitted program never calls them by their libc names)
@@ -1564,7 +1573,12 @@ def build_and_run(u, rundir, rt_obj, asan):
                            os.path.join(d, u.cname)], timeout=300)
         u.status, u.detail = ("build-fail-generated" if rc1 != 0 else "build-fail-test"), out[-3000:]
         return
-    rc, so, se = vf.sh2([exe], timeout=120, env={"ASAN_OPTIONS": "detect_leaks=0:abort_on_error=0", "UBSAN_OPTIONS": "print_stacktrace=0"})
+    if asan:
+        rc, so = vf.sh("%s 2>&1" % exe.replace(" ", "\\ "), timeout=300, shell=True,
+                       env={"ASAN_OPTIONS": "detect_leaks=0:abort_on_error=0:log_path=stdout", "UBSAN_OPTIONS": "print_stacktrace=0:log_path=stdout"})
+        se = "\n".join(l for l in so.split("\n") if "runtime error:" in l or "AddressSanitizer" in l or "SUMMARY:" in l)
+    else:
+        rc, so, se = vf.sh2([exe], timeout=120)
     u.rc, u.stdout, u.stderr = rc, so, se
     open(os.path.join(d, "transcript.txt"), "w").write(so)
     if se:
@@ -1620,6 +1634,11 @@ def analyse_unit(u, exe_o):
         allocs, frees, logs, flats, segs = {}, {}, {}, {}, {}
         for n, lines in ob["phases"]:
             for l in lines:
+                if "runtime error:" in l or "ERROR: AddressSanitizer" in l:
+                    ob.setdefault("sanitizer", []).append((n, l[:400]))
+                    continue
+                if len(l) < 2 or l[1] != " " or l[0] not in "AFLVSEKDZ":
+                    continue        # body of a sanitizer report
                 tag, rest = l[0], l[2:]
                 if tag == "A":
                     i, addr, sz, kind = rest.split()
